@@ -4,6 +4,7 @@ import (
 	"go/constant"
 	"go/token"
 	"go/types"
+	"strings"
 
 	"golang.org/x/tools/go/ssa"
 )
@@ -13,8 +14,18 @@ type VPred func(v ssa.Value) bool
 
 // Strip removes value-preserving wrappers (ChangeType, Convert between same-size integer-ish
 // types, MakeInterface, ChangeInterface).
+// ParamSubst maps parameters of a callee under analysis to the argument values of the call site
+// being summarised (set only while a guard-wrapper summary is computed).
+var ParamSubst map[ssa.Value]ssa.Value
+
 func Strip(v ssa.Value) ssa.Value {
 	for {
+		if ParamSubst != nil {
+			if w, ok := ParamSubst[v]; ok && w != v {
+				v = w
+				continue
+			}
+		}
 		switch x := v.(type) {
 		case *ssa.ChangeType:
 			v = x.X
@@ -368,6 +379,29 @@ func NilGuard(name string, x VPred, wantNil bool) Guard {
 // PassEdges returns, for every If in fn whose condition matches one of the guards, the edge on
 // which the guard passes, and the number of matching Ifs per guard.
 func PassEdges(fn *ssa.Function, guards ...Guard) (map[Edge]bool, []int) {
+	return passEdgesDepth(fn, 0, guards...)
+}
+
+// substTop applies ParamSubst to the top-level operands of a condition atom.
+func substTop(a CondAtom) CondAtom {
+	if ParamSubst == nil {
+		return a
+	}
+	sub := func(v ssa.Value) ssa.Value {
+		for i := 0; v != nil && i < 4; i++ {
+			w, ok := ParamSubst[v]
+			if !ok || w == v {
+				break
+			}
+			v = w
+		}
+		return v
+	}
+	a.Val, a.X, a.Y = sub(a.Val), sub(a.X), sub(a.Y)
+	return a
+}
+
+func passEdgesDepth(fn *ssa.Function, depth int, guards ...Guard) (map[Edge]bool, []int) {
 	edges := map[Edge]bool{}
 	counts := make([]int, len(guards))
 	for _, b := range fn.Blocks {
@@ -378,7 +412,11 @@ func PassEdges(fn *ssa.Function, guards ...Guard) (map[Edge]bool, []int) {
 		if !ok {
 			continue
 		}
-		a := NormCond(ifi.Cond)
+		a := substTop(NormCond(ifi.Cond))
+		// guard wrappers: `if pred(args)` / `if x := check(args); x != nil`
+		if depth < 2 {
+			summariseWrapper(b, a, depth, guards, edges, counts)
+		}
 		for gi, g := range guards {
 			m, passVal := g.Match(a)
 			if !m {
@@ -752,4 +790,266 @@ func GuardedByCorr(fn *ssa.Function, sink ssa.Instruction, guards ...Guard) (boo
 	}
 	r := ReachBlocks(fn, nil, cut)
 	return !r[sink.Block()], counts
+}
+
+// ---------------------------------------------------------------------------
+// Guard-wrapper summaries (interprocedural, depth 2)
+
+// wrapperCall decodes a condition that tests the result of a module function:
+//   kind "bool": atom is the boolean result of call (#idx of a tuple)
+//   kind "nil":  atom is result == nil
+func wrapperCall(a CondAtom) (call *ssa.Call, idx int, kind string) {
+	get := func(v ssa.Value) (*ssa.Call, int) {
+		switch x := v.(type) {
+		case *ssa.Call:
+			return x, 0
+		case *ssa.Extract:
+			if c, ok := x.Tuple.(*ssa.Call); ok {
+				return c, x.Index
+			}
+		}
+		return nil, 0
+	}
+	switch a.Op {
+	case token.ILLEGAL:
+		if c, i := get(a.Val); c != nil {
+			return c, i, "bool"
+		}
+	case token.EQL:
+		if IsNil(a.Y) {
+			if c, i := get(a.X); c != nil {
+				return c, i, "nil"
+			}
+		}
+		if IsNil(a.X) {
+			if c, i := get(a.Y); c != nil {
+				return c, i, "nil"
+			}
+		}
+	}
+	return nil, 0, ""
+}
+
+func inModule(fn *ssa.Function) bool {
+	if fn == nil || fn.Blocks == nil {
+		return false
+	}
+	t := TopFunc(fn)
+	if t.Pkg != nil {
+		return strings.HasPrefix(t.Pkg.Pkg.Path(), ModPath)
+	}
+	return false
+}
+
+// retClass classifies a returned value: +1 (true / non-nil), -1 (false / nil), 0 unknown.
+func retClass(v ssa.Value, kind string) int {
+	switch kind {
+	case "bool":
+		if k, ok := v.(*ssa.Const); ok && k.Value != nil && k.Value.Kind() == constant.Bool {
+			if constant.BoolVal(k.Value) {
+				return 1
+			}
+			return -1
+		}
+	case "nil":
+		if k, n := Nilness(v, NilFacts{}); k {
+			if n {
+				return -1
+			}
+			return 1
+		}
+		if c, ok := v.(*ssa.Call); ok {
+			if cal := c.Call.StaticCallee(); cal != nil && allocatingCtor(cal, 0) {
+				return 1
+			}
+		}
+	}
+	return 0
+}
+
+// allocatingCtor: every return of fn yields a freshly allocated (non-nil) first result.
+func allocatingCtor(fn *ssa.Function, depth int) bool {
+	if fn.Blocks == nil || depth > 2 {
+		return false
+	}
+	ok := true
+	n := 0
+	AllInstrs(fn, func(in ssa.Instruction) {
+		ret, isRet := in.(*ssa.Return)
+		if !isRet || len(ret.Results) == 0 {
+			return
+		}
+		n++
+		switch x := ret.Results[0].(type) {
+		case *ssa.Alloc, *ssa.MakeInterface:
+		case *ssa.Call:
+			if cal := x.Call.StaticCallee(); cal == nil || !allocatingCtor(cal, depth+1) {
+				ok = false
+			}
+		default:
+			ok = false
+		}
+	})
+	return ok && n > 0
+}
+
+// summariseWrapper: for `if callee(args)` adds the edge(s) on which each guard is implied.
+func summariseWrapper(b *ssa.BasicBlock, a CondAtom, depth int, guards []Guard, edges map[Edge]bool, counts []int) {
+	call, idx, kind := wrapperCall(a)
+	if call == nil {
+		return
+	}
+	callee := call.Call.StaticCallee()
+	if !inModule(callee) || callee == b.Parent() {
+		return
+	}
+	if idx >= callee.Signature.Results().Len() {
+		return
+	}
+	// parameter substitution for the duration of the summary
+	saved := ParamSubst
+	ns := map[ssa.Value]ssa.Value{}
+	for k, v := range saved {
+		ns[k] = v
+	}
+	for i, p := range callee.Params {
+		if i < len(call.Call.Args) {
+			ns[p] = call.Call.Args[i]
+		}
+	}
+	ParamSubst = ns
+	defer func() { ParamSubst = saved }()
+
+	type point struct {
+		at  ssa.Instruction
+		cls int
+		via *Edge // the edge into a phi block, when the class comes from a phi edge
+		val ssa.Value
+	}
+	var pts []point
+	AllInstrs(callee, func(in ssa.Instruction) {
+		ret, ok := in.(*ssa.Return)
+		if !ok || idx >= len(ret.Results) {
+			return
+		}
+		v := ret.Results[idx]
+		if phi, isPhi := v.(*ssa.Phi); isPhi && phi.Block() == ret.Block() {
+			for i, e := range phi.Edges {
+				pred := phi.Block().Preds[i]
+				var via *Edge
+				for si, su := range pred.Succs {
+					if su == phi.Block() {
+						via = &Edge{pred, si}
+					}
+				}
+				pts = append(pts, point{pred.Instrs[len(pred.Instrs)-1], retClass(e, kind), via, e})
+			}
+			return
+		}
+		pts = append(pts, point{ret, retClass(v, kind), nil, v})
+	})
+	if len(pts) == 0 {
+		return
+	}
+	// joint evaluation: the guards form a disjunction (any pass edge discharges)
+	cut, innerCnt := passEdgesDepth(callee, depth+1, guards...)
+	// nil-kind summaries are evaluated path-sensitively inside the callee
+	var nilReachRets map[*ssa.Return]map[int]bool // return -> set of classes it can yield on uncut paths
+	if kind == "nil" {
+		nilReachRets = map[*ssa.Return]map[int]bool{}
+		NilWalk(callee, nil, cut, nil, func(in ssa.Instruction, f NilFacts) {
+			ret, ok := in.(*ssa.Return)
+			if !ok || idx >= len(ret.Results) {
+				return
+			}
+			if nilReachRets[ret] == nil {
+				nilReachRets[ret] = map[int]bool{}
+			}
+			if k, n := Nilness(ret.Results[idx], f); k {
+				if n {
+					nilReachRets[ret][-1] = true
+				} else {
+					nilReachRets[ret][1] = true
+				}
+			} else if c := retClass(ret.Results[idx], kind); c != 0 {
+				nilReachRets[ret][c] = true
+			} else {
+				nilReachRets[ret][-1] = true
+				nilReachRets[ret][1] = true
+			}
+		})
+	}
+	reach := ReachBlocks(callee, nil, cut)
+	// a returned boolean that is itself a guard atom: returning it with the passing value discharges
+	atomPass := func(v ssa.Value, cls int) bool {
+		a2 := substTop(NormCond(v))
+		for _, g := range guards {
+			if m, passVal := g.Match(a2); m {
+				// value v == (atom XOR negated); class +1 means v true
+				atomVal := (cls == 1) != a2.Negated
+				if atomVal == passVal {
+					return true
+				}
+			}
+		}
+		return false
+	}
+	implied := func(cls int) bool {
+		if kind == "nil" {
+			any := false
+			for _, classes := range nilReachRets {
+				if classes[cls] {
+					return false
+				}
+			}
+			// at least one return of that class exists at all
+			AllInstrs(callee, func(in ssa.Instruction) {
+				if _, ok := in.(*ssa.Return); ok {
+					any = true
+				}
+			})
+			return any
+		}
+		any := false
+		for _, p := range pts {
+			if p.cls != cls && p.cls != 0 {
+				continue
+			}
+			any = true
+			if p.via != nil && cut[*p.via] {
+				continue
+			}
+			if p.cls == 0 && p.val != nil && atomPass(p.val, cls) {
+				continue
+			}
+			if reach[p.at.Block()] {
+				return false
+			}
+		}
+		return any
+	}
+	classForAtomTrue := 1
+	if kind == "nil" {
+		classForAtomTrue = -1
+	}
+	for _, atomVal := range []bool{true, false} {
+		cls := classForAtomTrue
+		if !atomVal {
+			cls = -classForAtomTrue
+		}
+		if !implied(cls) {
+			continue
+		}
+		for gi := range guards {
+			if innerCnt[gi] > 0 {
+				counts[gi]++
+			}
+		}
+		condVal := atomVal != a.Negated
+		if condVal {
+			edges[Edge{b, 0}] = true
+		} else {
+			edges[Edge{b, 1}] = true
+		}
+	}
 }
